@@ -96,6 +96,8 @@ Proof.
   unfold sec_holding_cost in *. rewrite Hp, Hl, Hs. rewrite E0. reflexivity.
 Qed.
 
+Ltac recnorm := cbv beta iota zeta delta [set_h_hcosts set_h_coupons set_s_capital set_s_holding_cost set_s_coupon set_h_notls set_s_notl Records.s_id Records.s_class Records.s_fi Records.s_mult Records.s_intpos Records.s_prices Records.s_bo_set Records.s_bidoffers Records.s_coupons Records.s_cost_long Records.s_cost_short Records.s_now Records.s_pos Records.s_lastpos Records.s_price Records.s_value Records.s_notl Records.s_weight Records.s_needupdate Records.s_outlay Records.s_bidoffer Records.s_bidoffer_paid Records.s_capital Records.s_coupon Records.s_holding_cost Records.h_values Records.h_positions Records.h_notls Records.h_outlays Records.h_bopaid Records.h_coupons Records.h_hcosts].
+
 Lemma map_zero_upd (l : list R) i x : map (fun _ : R => n0 RNumI) (upd i x l) = map (fun _ : R => n0 RNumI) l.
 Proof. revert i. induction l as [|a l IH]; intros [|i]; cbn; auto. f_equal. apply IH. Qed.
 
@@ -110,25 +112,25 @@ Proof.
   - (* Security *) cbn in *. inversion H; subst. reflexivity.
   - (* FixedIncomeSecurity *)
     cbn in *. inversion H; subst. f_equal.
-    destruct y; unfold sec_set_notl_pos; cbn. rewrite upd_upd. reflexivity.
+    destruct y; unfold sec_set_notl_pos; recnorm. rewrite upd_upd. reflexivity.
   - (* CouponPayingSecurity *)
     inv_bind H. inversion H0; subst; clear H0.
     destruct (coupon_explicit _ _ _ E) as (cpn & hc & Hx & Hz). subst s1.
     rewrite (Hz (sec_set_notl_pos inow (sec_set_carry inow cpn hc (sec_set_notl_pos inow y))))
       by (autorewrite with frames; reflexivity).
     cbn [bind]. f_equal.
-    destruct y; unfold sec_set_notl_pos, sec_set_carry; cbn. rewrite !upd_upd. reflexivity.
+    destruct y; unfold sec_set_notl_pos, sec_set_carry; recnorm. rewrite !upd_upd. reflexivity.
   - (* HedgeSecurity *)
     cbn in *. inversion H; subst. f_equal.
-    destruct y; unfold sec_set_notl_zero; cbn. rewrite map_map. reflexivity.
+    destruct y; unfold sec_set_notl_zero; recnorm. rewrite map_map. reflexivity.
   - (* CouponPayingHedgeSecurity *)
     inv_bind H. inversion H0; subst; clear H0.
     destruct (coupon_explicit _ _ _ E) as (cpn & hc & Hx & Hz). subst x.
     rewrite (Hz (sec_set_notl_pos inow (sec_set_notl_zero (sec_set_carry inow cpn hc (sec_set_notl_pos inow y)))))
       by (autorewrite with frames; reflexivity).
     cbn [bind]. f_equal.
-    destruct y; unfold sec_set_notl_pos, sec_set_carry, sec_set_notl_zero; cbn.
-    rewrite !upd_upd, !map_zero_upd, !map_map. reflexivity.
+    destruct y; unfold sec_set_notl_pos, sec_set_carry, sec_set_notl_zero; recnorm.
+    rewrite ?upd_upd, ?map_zero_upd, ?map_map. reflexivity.
 Qed.
 
 (* SecurityBase.update and its subclasses: re-running the update for the same date changes nothing *)
